@@ -173,6 +173,54 @@ def extract_xref(repo):
     return {n: lean_test(t) for n, (t, _) in zip(names, chain)}
 
 
+def extract_idx_pure(repo):
+    """EncodedMethod.get_instructions_idx must be a pure generator over the CURRENT instruction list:
+    no attribute of `self` (or of anything else) is stored, nothing is memoised; it walks
+    `self.get_code().get_bc().get_instructions()`, yields `(idx, ins)` and advances idx by
+    `ins.get_length()`.  Any other shape raises (the model's `withOff` is then not what the code does)."""
+    tree = ast.parse(open(os.path.join(repo, DEX)).read())
+    fn = find_def(tree, "get_instructions_idx", "EncodedMethod")
+    for x in ast.walk(fn):
+        if isinstance(x, (ast.Attribute, ast.Subscript)) and isinstance(x.ctx, (ast.Store, ast.Del)):
+            raise Unreadable("get_instructions_idx stores into an attribute/subscript (memoisation?)")
+        if isinstance(x, ast.Call) and isinstance(x.func, ast.Name) and x.func.id in ("setattr", "delattr"):
+            raise Unreadable("get_instructions_idx calls setattr")
+        if isinstance(x, (ast.Global, ast.Nonlocal, ast.YieldFrom)):
+            raise Unreadable("get_instructions_idx uses global/nonlocal/yield from")
+    loops = [x for x in ast.walk(fn) if isinstance(x, ast.For)]
+    if len(loops) != 1:
+        raise Unreadable("get_instructions_idx has %d loops (model knows 1)" % len(loops))
+    loop = loops[0]
+    it = loop.iter
+    chain = []
+    while isinstance(it, ast.Call) and isinstance(it.func, ast.Attribute):
+        chain.append(it.func.attr)
+        it = it.func.value
+    if chain != ["get_instructions", "get_bc", "get_code"] or not (isinstance(it, ast.Name) and it.id == "self"):
+        raise Unreadable("get_instructions_idx no longer iterates self.get_code().get_bc().get_instructions()")
+    if not (isinstance(loop.target, ast.Name) and len(loop.body) == 2):
+        raise Unreadable("loop body of get_instructions_idx changed")
+    y, inc = loop.body
+    ins = loop.target.id
+    ok_y = (isinstance(y, ast.Expr) and isinstance(y.value, ast.Yield) and isinstance(y.value.value, ast.Tuple)
+            and len(y.value.value.elts) == 2 and all(isinstance(e, ast.Name) for e in y.value.value.elts)
+            and y.value.value.elts[1].id == ins)
+    if not ok_y:
+        raise Unreadable("get_instructions_idx no longer yields (idx, ins)")
+    idx = y.value.value.elts[0].id
+    ok_inc = (isinstance(inc, ast.AugAssign) and isinstance(inc.op, ast.Add) and isinstance(inc.target, ast.Name)
+              and inc.target.id == idx and isinstance(inc.value, ast.Call) and isinstance(inc.value.func, ast.Attribute)
+              and inc.value.func.attr == "get_length" and isinstance(inc.value.func.value, ast.Name)
+              and inc.value.func.value.id == ins)
+    if not ok_inc:
+        raise Unreadable("get_instructions_idx no longer advances idx by ins.get_length()")
+    init = [st for st in fn.body if isinstance(st, ast.Assign) and len(st.targets) == 1
+            and isinstance(st.targets[0], ast.Name) and st.targets[0].id == idx]
+    if len(init) != 1 or _int(init[0].value) != 0:
+        raise Unreadable("get_instructions_idx no longer starts at offset 0")
+    return True
+
+
 def reflect_basic(repo):
     if repo not in sys.path:
         sys.path.insert(0, repo)
@@ -191,6 +239,7 @@ def generate(repo):
     push = extract_push(repo)
     xref = extract_xref(repo)
     ops = reflect_basic(repo)
+    extract_idx_pure(repo)
     L = ["/- GENERATED by gen/cfgops.py from %s and %s. Do not edit. -/" % (DEX, ANA),
          "namespace AgVerif.Gen.CfgOps", "",
          "/-- `analysis.BasicOPCODES` as computed at import time (sorted) -/",
@@ -204,6 +253,10 @@ def generate(repo):
           "def isSpecial (op : Nat) : Bool := %s" % push, ""]
     for k, v in xref.items():
         L += ["/-- Analysis._create_xref opcode test -/", "def %s (op : Nat) : Bool := %s" % (k, v), ""]
+    L += ["/-- EncodedMethod.get_instructions_idx was read (AST) as a pure generator: it stores nothing, walks",
+          "    self.get_code().get_bc().get_instructions(), yields (idx, ins), idx starts at 0 and grows by",
+          "    ins.get_length() — i.e. `AgVerif.Cfg.withOff 0` of the current instruction list -/",
+          "def idxPairsPure : Bool := true", ""]
     L += ["end AgVerif.Gen.CfgOps", ""]
     return {"CfgOps": "\n".join(L)}
 
